@@ -35,7 +35,7 @@ class DirectBlock:
         self.lines.append("B %s b %s" % (tab, text)); return ix
 def gen_direct(sch, rng, i):
     tps = 1000
-    bp = histgen.gen_bp(sch, rng, masks=(histgen.ALL_QR_BITS, histgen.ALL_SIG_BITS, 3, 3), tps=tps, maxi=10000)
+    bp = histgen.gen_bp(sch, rng, masks=(histgen.ALL_QR_BITS, histgen.ALL_SIG_BITS, 3, 3), tps=tps, maxi=rng.choice([1, 2, 3, 10000]))   # small maxima: the add calls' 'block is full' results are exercised
     pre = [1, 0, None, [bp]]
     d = DirectBlock()
     opt = lambda f: f() if rng.random() < 0.6 else None
